@@ -290,6 +290,30 @@ class DiagLock(sched.SchedLock):
         return self.acquire()
 
 
+def _spawn(fn):
+    box = {}
+
+    def target():
+        try:
+            box["r"] = fn()
+        except BaseException as e:  # noqa
+            box["e"] = e
+    t = threading.Thread(target=target, daemon=True)
+    t.start()
+    return t, box
+
+
+class _Pass:
+    """one digest() call running on its own thread, parked inside its digesters"""
+
+    def __init__(self):
+        self.thread = None
+        self.state = "running"      # running | parked | done
+        self.go = False
+        self.ret = None
+        self.err = None
+
+
 class Rig:
     """One Lysosome on a virtual clock with scripted digesters and an on_toxic log."""
 
@@ -343,11 +367,22 @@ class Rig:
         self.inop = {}
         self.wt = [L.WasteType.MISFOLDED_PROTEIN, L.WasteType.EXPIRED_CACHE, L.WasteType.FAILED_OPERATION,
                    L.WasteType.ORPHANED_RESOURCE, L.WasteType.TOXIC_BYPRODUCT]
+        # overlapping digest passes: a pass runs lys.digest() on its own thread and PARKS inside every digester /
+        # on_toxic call until the driver resumes it (exactly one thread runs at any time)
+        self.cv = threading.Condition()
+        self.passes = {}            # label -> _Pass
+        self.pass_of_thread = {}    # thread ident -> _Pass
+        self.free_run = False       # set when the rig is torn down: nobody parks any more
+        # which call of the history a digester call happens in: thread ident -> operation (multi-thread runs)
+        self.cur = {}
+        self.call_ops = []          # parallel to self.calls: "digest" | "ingest" | ... | None
 
         def dg(waste):
+            self.maybe_park()
             i = self.event_of_call(waste)
             out = self.outs.get(i)
             self.calls.append((i, "dg", out is None))
+            self.call_ops.append(self.cur.get(threading.get_ident()))
             if out is None:
                 raise RuntimeError(f"boom {i}")
             if sys._getframe(1).f_code.co_name == "digest":
@@ -355,10 +390,12 @@ class Rig:
             return {f"k{k}": i for k in out}
 
         def on_toxic(waste):
+            self.maybe_park()
             i = self.event_of_call(waste)
             out = self.outs.get(i)
             self.toxlog.append(i)
             self.calls.append((i, "cb", out is None))
+            self.call_ops.append(self.cur.get(threading.get_ident()))
             if out is None:
                 raise RuntimeError(f"boom {i}")
 
@@ -368,7 +405,77 @@ class Rig:
                               on_toxic=on_toxic if cfg["cb"] else None, silent=True)
 
     def close(self):
+        with self.cv:
+            self.free_run = True
+            self.cv.notify_all()
+        for ps in self.passes.values():
+            if ps.thread is not None:
+                ps.thread.join(0.5)
         self.L.datetime, self.L.Waste = self.saved
+
+    # -- overlapping passes ------------------------------------------------
+    def maybe_park(self):
+        ps = self.pass_of_thread.get(threading.get_ident())
+        if ps is None or self.free_run:
+            return
+        with self.cv:
+            ps.state = "parked"
+            self.cv.notify_all()
+            while not ps.go and not self.free_run:
+                self.cv.wait(0.5)
+            ps.go = False
+            ps.state = "running"
+
+    def _wait_pass(self, ps, timeout):
+        end = time.time() + timeout
+        with self.cv:
+            while ps.state == "running":
+                left = end - time.time()
+                if left <= 0:
+                    raise common.Hang()
+                self.cv.wait(left)
+        return ps.state
+
+    def pass_begin(self, label, k, timeout):
+        """thread `label` calls digest(k) -> 'parked' (inside a digester) | 'done' (the call returned / raised)"""
+        ps = _Pass()
+        self.passes[label] = ps
+        lys = self.lys
+
+        def body():
+            self.pass_of_thread[threading.get_ident()] = ps
+            self.cur[threading.get_ident()] = "digest"
+            try:
+                ps.ret = lys.digest(k) if k is not None else lys.digest()
+            except BaseException as e:  # noqa
+                ps.err = e
+            finally:
+                with self.cv:
+                    ps.state = "done"
+                    self.cv.notify_all()
+        ps.thread = threading.Thread(target=body, daemon=True)
+        ps.thread.start()
+        return self._wait_pass(ps, timeout)
+
+    def pass_step(self, label, timeout):
+        """the digester thread `label` is parked in returns / raises; the pass runs on to its next digester call"""
+        ps = self.passes[label]
+        with self.cv:
+            ps.state = "running"
+            ps.go = True
+            self.cv.notify_all()
+        return self._wait_pass(ps, timeout)
+
+    def settle(self, timeout):
+        """stop parking, let every thread run freely -> True iff all pass threads finished"""
+        with self.cv:
+            self.free_run = True
+            self.cv.notify_all()
+        end = time.time() + timeout
+        for ps in self.passes.values():
+            if ps.thread is not None:
+                ps.thread.join(max(0.0, end - time.time()))
+        return not any(ps.thread is not None and ps.thread.is_alive() for ps in self.passes.values())
 
     def events_of(self, w):
         ev = getattr(w, "_hev", None)
@@ -463,6 +570,10 @@ class Rig:
 
 def is_ingest(o):
     return o[0] in ("ingest", "ierr", "isens", "twin", "again")
+
+
+def is_pass(o):
+    return o[0] in ("pbegin", "pstep")
 
 
 def err_ids(errors):
@@ -667,11 +778,92 @@ class C13(Check):
             ops.append(o)
         return {"cfg": cfg, "ops": ops}
 
+    # -- overlapping digest calls ------------------------------------------------
+    @staticmethod
+    def _sim_take(q, k):
+        """how many items digest(k) takes from a queue of q (guide for the generator only)"""
+        if not k:
+            return q
+        return min(k, q) if k > 0 else max(q + k, 0)
+
+    @classmethod
+    def _sim_ingest(cls, q, cfg):
+        if q >= cfg["max"]:
+            q -= q // 2
+        q += 1
+        if q >= cfg["thr"]:
+            q -= cls._sim_take(q, q // 2)
+        return q
+
+    def _rand_overlap_case(self, rng, maxlen):
+        """digest() calls of up to 3 threads overlapping each other and the calls of the main thread: a call is split at its
+        digester calls (`pbegin p k` = thread p calls digest(k) and is inside its first digester, `pstep p` = that digester
+        returns / raises and the call runs on to the next one or returns); in between: ingests (also ones that reach the
+        auto-digest threshold or capacity), complete digest(k) calls, autophagy, clock.  Digesters raise for 40% of the items."""
+        mx = rng.choice([3, 4, 5, 6, 8, 8])
+        thr = rng.choice([2, 3, 4, mx, mx + 1, 9, 10, 10])
+        cfg = {"max": mx, "thr": thr, "ret": rng.choice([1, 2, 3, 5]), "cb": True}
+
+        def out(i):
+            return None if rng.random() < 0.4 else self._rand_out(rng, i)
+
+        def ing(i):
+            j = rng.random()
+            if j < 0.15:
+                return ["ierr", out(i)]
+            if j < 0.35:
+                return ["isens", out(i)]
+            return ["ingest", rng.choice([0, 1, 2, 3, TOXIC]), rng.choice([0, 0, 0, -1, -2]), out(i)]
+        ops, i, q = [], 0, 0
+        left = {}                    # label -> items the open call still has to process (estimate)
+        nxt = 0
+        for _ in range(rng.randint(1, min(mx, max(1, thr - 1), 4))):
+            ops.append(ing(i))
+            i += 1
+            q = self._sim_ingest(q, cfg)
+        n = rng.randint(3, maxlen)
+        while len(ops) < n:
+            k = rng.random()
+            if left and k < 0.40:
+                p = rng.choice(sorted(left))
+                ops.append(["pstep", p])
+                left[p] -= 1
+                if left[p] <= 0:
+                    del left[p]
+            elif len(left) < 3 and k < 0.60:
+                kk = rng.choice([None, None, 1, 2, 2, 3, -1])
+                took = self._sim_take(q, kk)
+                ops.append(["pbegin", nxt, kk])
+                q -= took
+                if took:
+                    left[nxt] = took
+                nxt += 1
+            elif k < 0.85:
+                ops.append(ing(i))
+                i += 1
+                q = self._sim_ingest(q, cfg)
+            elif k < 0.94:
+                kk = rng.choice([None, 1, 2])
+                ops.append(["digest", kk])
+                q -= self._sim_take(q, kk)
+            elif k < 0.97:
+                ops.append(["auto"])
+            else:
+                ops.append(["adv", rng.choice([1, 2])])
+        for p in sorted(left):       # every call returns before the history ends
+            ops += [["pstep", p]] * left[p]
+        return {"cfg": cfg, "ops": ops}
+
     def gen_cases(self, rng, n):
         out = []
         for j in range(n):
             maxlen = 14 if (self.tier == "quick" or j % 4) else 30
-            out.append(self._rand_twin_case(rng, maxlen) if j % 4 == 1 else self._rand_case(rng, maxlen))
+            if j % 4 == 1:
+                out.append(self._rand_twin_case(rng, maxlen))
+            elif j % 4 == 3:
+                out.append(self._rand_overlap_case(rng, maxlen))
+            else:
+                out.append(self._rand_case(rng, maxlen))
         return out
 
     ALPHABET = [["ingest", 0, 0, [0]], ["ingest", 1, 0, None], ["isens", []], ["isens", None],
@@ -689,6 +881,57 @@ class C13(Check):
             for d in range(1, depth + 1 - (1 if n == 2 else 0)):
                 for combo in itertools.product(alpha, repeat=d):
                     out.append({"cfg": cfg, "ops": [list(o) for o in combo]})
+        return out + self._exhaustive_overlaps()
+
+    def _exhaustive_overlaps(self):
+        """every way two overlapping digest() calls (threads 0 and 1), complete digest() calls and ingests that reach the
+        auto-digest threshold can follow each other at digester-call granularity, up to a depth, from a queue of three
+        items of which the first and the last have raising digesters; every call returns before the history ends"""
+        depth = 4 if self.tier == "quick" else 6
+        out = []
+        for cfg, pre in (({"max": 8, "thr": 9, "ret": 2, "cb": True},
+                          [["ierr", None], ["ingest", 0, 0, [0]], ["isens", None]]),
+                         ({"max": 8, "thr": 3, "ret": 2, "cb": True},
+                          [["ingest", 3, 0, None], ["ingest", 1, 0, None]])):
+            q0 = 0
+            for _ in pre:
+                q0 = self._sim_ingest(q0, cfg)
+            alpha = [["pbegin", 0, 2], ["pbegin", 1, None], ["pstep", 0], ["pstep", 1], ["digest", None], ["ierr", None]]
+
+            def rec(ops, q, left, used, d):
+                if ops and not left:
+                    out.append({"cfg": cfg, "ops": [list(o) for o in pre + ops]})
+                if d == 0:
+                    if left:
+                        tail = [["pstep", p] for p in sorted(left) for _ in range(left[p])]
+                        out.append({"cfg": cfg, "ops": [list(o) for o in pre + ops + tail]})
+                    return
+                for o in alpha:
+                    if o[0] == "pbegin":
+                        if o[1] in used:
+                            continue
+                        took = self._sim_take(q, o[2])
+                        l2 = dict(left)
+                        if took:
+                            l2[o[1]] = took
+                        rec(ops + [o], q - took, l2, used | {o[1]}, d - 1)
+                    elif o[0] == "pstep":
+                        if o[1] not in left:
+                            continue
+                        l2 = dict(left)
+                        l2[o[1]] -= 1
+                        if not l2[o[1]]:
+                            del l2[o[1]]
+                        rec(ops + [o], q, l2, used, d - 1)
+                    elif o[0] == "digest":
+                        if not left:
+                            continue        # nothing in progress: covered by the sequential enumeration
+                        rec(ops + [o], 0, left, used, d - 1)
+                    else:
+                        if not left:
+                            continue
+                        rec(ops + [o], self._sim_ingest(q, cfg), left, used, d - 1)
+            rec([], q0, {}, frozenset(), depth)
         return out
 
     # -- implementation ----------------------------------------------------
@@ -698,6 +941,8 @@ class C13(Check):
 
     def run_impl(self, case):
         cfg, ops = case["cfg"], case["ops"]
+        if any(is_pass(o) for o in ops) and not cfg["cb"]:
+            raise ValueError("overlapping passes need on_toxic set (a sensitive item would have no point to park at)")
         rig = Rig(cfg)
         lys = rig.lys
         try:
@@ -707,25 +952,61 @@ class C13(Check):
             obs, steps = [row0], []
             nid = 0
             cum_rep = cum_silent = cum_exp = 0
+            open_labels = set()
             for idx, o in enumerate(ops):
                 before = rig.queue_ids()
                 ncalls = len(rig.calls)
                 rig.begin_op()
+                paused, bad = False, False
                 if o[0] == "adv":
                     rig.clock.t += o[1]
                     ret, row = None, [0]
+                elif is_pass(o) and ((o[0] == "pbegin") == (o[1] in open_labels)):
+                    ret, row, bad = None, [-5], True        # label in use / no such pass: not a call
                 else:
-                    fn = rig.do(o, nid)
                     try:
-                        ret = common.call_with_watchdog(fn, self._timeout())
+                        if o[0] == "pbegin":
+                            st = rig.pass_begin(o[1], o[2], self._timeout())
+                        elif o[0] == "pstep":
+                            st = rig.pass_step(o[1], self._timeout())
+                        else:
+                            st = None
+                            opt, box = _spawn(rig.do(o, nid))
+                            opt.join(self._timeout())
+                            if opt.is_alive():
+                                raise common.Hang()
+                            if "e" in box:
+                                raise box["e"]
+                            ret = box.get("r")
                     except common.Hang:
-                        self.hangs_seen += 1
-                        obs.append([-999])
-                        steps.append({"op": o, "hang": True, "before": before})
-                        return obs, {"steps": steps, "hang": True, "at": idx}
-                    if is_ingest(o):
+                        # with another thread parked inside a digester a call may legitimately WAIT for it (a digester is
+                        # assumed to return): let everything run; a hang is what is still stuck after that
+                        stuck = True
+                        if open_labels:
+                            stuck = not rig.settle(self._timeout())
+                            if not is_pass(o):
+                                opt.join(self._timeout())
+                                stuck = stuck or opt.is_alive()
+                        self.hangs_seen += 1 if stuck else 0
+                        obs.append([-999] if stuck else [-997])
+                        steps.append({"op": o, "hang": stuck, "waited": not stuck, "before": before,
+                                      "parked": sorted(open_labels)})
+                        return obs, {"steps": steps, "hang": stuck, "at": idx}
+                    if st is not None:
+                        ps = rig.passes[o[1]]
+                        if st == "parked":
+                            open_labels.add(o[1])
+                            paused, ret = True, None
+                        else:
+                            open_labels.discard(o[1])
+                            if ps.err is not None:
+                                raise ps.err
+                            ret = ps.ret
+                    if paused:
+                        row = [3]
+                    elif is_ingest(o):
                         row = [0] if ret is None else [-7]
-                    elif o[0] == "digest":
+                    elif o[0] in ("digest", "pbegin", "pstep"):
                         rec = sorted((keynum(k), valnum(v)) for k, v in ret.recycled.items())
                         eids = err_ids(ret.errors)
                         row = [1, int(ret.success is True), ret.disposed, len(ret.errors)] + eids + [len(rec)] + [x for p in rec for x in p]
@@ -752,12 +1033,14 @@ class C13(Check):
                 row += [cum_rep, cum_silent, cum_exp]
                 obs.append(row)
                 steps.append({"op": o, "new": nid if is_ingest(o) else None, "before": before, "after": after,
-                              "calls": calls, "ret": (None if ret is None else
-                                                      (ret if isinstance(ret, int) else
-                                                       {"disposed": ret.disposed, "nerr": len(ret.errors),
-                                                        "success": ret.success,
-                                                        "recycled_refs": int_refs(ret.recycled.values()),
-                                                        "recycled_secret": has_secret(ret.recycled)})),
+                              "calls": calls, "paused": paused, "bad": bad, "open": sorted(open_labels),
+                              "ret": (None if ret is None else
+                                      (ret if isinstance(ret, int) else
+                                       {"disposed": ret.disposed, "nerr": len(ret.errors),
+                                        "err_ids": err_ids(ret.errors),
+                                        "success": ret.success,
+                                        "recycled_refs": int_refs(ret.recycled.values()),
+                                        "recycled_secret": has_secret(ret.recycled)})),
                               "stats": {k: st[k] for k in ("queue_size", "total_ingested", "total_digested", "total_recycled")},
                               "qsize": qs["size"],
                               "bin_refs": int_refs(binraw.values()), "bin_secret": has_secret(binraw)})
@@ -779,30 +1062,37 @@ class C13(Check):
         ops = []
         t = 0
         ev = []          # per ingest event: (type index, created_at, outcome)
+
+        def atomic(x):
+            ops.append(f"Atomic ({x})")
         for o in case["ops"]:
             if o[0] == "ingest":
-                ops.append(f"Ingest {TYPES[o[1]]} {cz(o[2])} {self._cout(o[3])}")
+                atomic(f"Ingest {TYPES[o[1]]} {cz(o[2])} {self._cout(o[3])}")
                 ev.append((o[1], t + o[2], o[3]))
             elif o[0] == "twin":        # value-equal copy: same type and created_at, its own outcome
                 ty, cr, _ = ev[o[1]]
-                ops.append(f"Ingest {TYPES[ty]} {cz(cr - t)} {self._cout(o[2])}")
+                atomic(f"Ingest {TYPES[ty]} {cz(cr - t)} {self._cout(o[2])}")
                 ev.append((ty, cr, o[2]))
             elif o[0] == "again":       # the same object once more: same type, created_at and outcome
                 ty, cr, out = ev[o[1]]
-                ops.append(f"Ingest {TYPES[ty]} {cz(cr - t)} {self._cout(out)}")
+                atomic(f"Ingest {TYPES[ty]} {cz(cr - t)} {self._cout(out)}")
                 ev.append((ty, cr, out))
             elif o[0] == "ierr":
-                ops.append(f"IngestError {self._cout(o[1])}")
+                atomic(f"IngestError {self._cout(o[1])}")
                 ev.append((2, t, o[1]))
             elif o[0] == "isens":
-                ops.append(f"IngestSensitive {self._cout(o[1])}")
+                atomic(f"IngestSensitive {self._cout(o[1])}")
                 ev.append((TOXIC, t, o[1]))
             elif o[0] == "digest":
-                ops.append(f"DigestOp {copt(o[1])}")
+                atomic(f"DigestOp {copt(o[1])}")
             elif o[0] == "auto":
-                ops.append("Autophagy")
+                atomic("Autophagy")
+            elif o[0] == "pbegin":      # thread o[1] calls digest(o[2]) and is parked inside its first digester
+                ops.append(f"PassBegin {cz(o[1])} {copt(o[2])}")
+            elif o[0] == "pstep":       # the digester thread o[1] is parked in returns / raises
+                ops.append(f"PassStep {cz(o[1])}")
             else:
-                ops.append(f"Advance {cz(o[1])}")
+                atomic(f"Advance {cz(o[1])}")
                 t += o[1]
         return f"(mkConfig {cz(cfg['max'])} {cz(cfg['thr'])} {cz(cfg['ret'])} {cbool(cfg['cb'])}, {clist(ops)})"
 
@@ -819,19 +1109,33 @@ class C13(Check):
         if trace.get("hang") and not steps:
             return Violation("C13/hang", "a call did not return within the watchdog time")
         types = {}
-        fate = {}              # id -> digested | reported | silent | expired
+        fate = {}              # id -> digested | raised-in-digest | silent | expired
         cbcount = {}
         ningested = 0
-        n_rep = n_silent = n_exp = 0
+        n_silent = n_exp = 0
+        # overlapping digest calls: what each open call took off the queue and has not handed to a digester yet
+        inflight = {}          # label -> [ids]
+        # "reported as a digestion error": the ids every RETURNED DigestResult lists, against the items whose digester
+        # raised inside a digest() call of the history (not inside an ingest: nobody receives that DigestResult)
+        must_report = []       # ids, in the order their digesters raised
+        reported = {}          # id -> number of returned DigestResults.errors entries
+        n_ok_in_digest = 0     # items whose digester returned inside a digest() call of the history
+        disposed_returned = 0
+        results = []           # (call, disposed, error ids) of every returned DigestResult, for the message
         for i, st in enumerate(steps):
             o = st["op"]
             where = f"call #{i} {o}"
             if st.get("hang"):
                 hist = [s["op"] for s in steps]
-                return Violation("C13/hang", f"{where} did not return within the watchdog time; history {hist} "
+                return Violation("C13/hang", f"{where} did not return within the watchdog time"
+                                             + (f" (nor after the digesters other threads {st['parked']} were parked in had returned)" if st.get("parked") else "")
+                                             + f"; history {hist} "
                                              f"with max_queue_size={cfg['max']} auto_digest_threshold={cfg['thr']} (queue before: {st['before']})")
+            if st.get("waited") or st.get("bad"):
+                continue        # the call waited for another thread's digester (not stated to be an error) / not a call
             before, after, calls = st["before"], st["after"], st["calls"]
             new = st["new"]
+            label = o[1] if is_pass(o) else None
             if new is not None:
                 ningested += 1
                 types[new] = (TOXIC if o[0] == "isens" else 2 if o[0] == "ierr" else
@@ -855,53 +1159,99 @@ class C13(Check):
                         return Violation("C13/toxic-callback", f"{where}: on_toxic called for non-sensitive item {cid}")
                     if cbcount[cid] > 1:
                         return Violation("C13/toxic-callback", f"{where}: on_toxic reached {cbcount[cid]} times for sensitive item {cid}")
-            for cid in called:
-                if cid not in gone:
-                    return Violation("C13/conservation", f"{where}: item {cid} was handed to a digester but is still queued / was not queued")
             for x in gone:
-                if x in fate:
+                if x in fate or any(x in l for l in inflight.values()):
                     return Violation("C13/conservation", f"{where}: item {x} leaves the queue twice")
+            if label is not None:
+                # a digest() call that overlaps others: what it takes now is its own until it hands it to a digester
+                inflight.setdefault(label, [])
+                inflight[label] += gone
+                todo = list(inflight[label])
+            else:
+                todo = gone
+            for cid in called:
+                if cid not in todo:
+                    return Violation("C13/conservation", f"{where}: item {cid} was handed to a digester but is still queued / was not "
+                                                         f"taken off the queue by this call")
+            returned = not st.get("paused")
+            for x in todo:
                 if o[0] == "auto":
                     fate[x] = "expired"
                     n_exp += 1
                     continue
                 cs = called.get(x, [])
                 observable = not (types[x] == TOXIC and not cfg["cb"])
+                if label is not None and not cs and (observable or not returned):
+                    continue                    # still in flight: this call has not reached it yet
                 if observable and len(cs) != 1:
                     if types[x] == TOXIC:
                         return Violation("C13/toxic-callback", f"{where}: sensitive item {x} left the queue and reached on_toxic {len(cs)} times")
                     return Violation("C13/conservation", f"{where}: item {x} left the queue and its digester ran {len(cs)} times")
                 raised = bool(cs and cs[0][1])
+                if label is not None:
+                    inflight[label].remove(x)
                 if not raised:
                     fate[x] = "digested"
-                elif o[0] == "digest":
-                    fate[x] = "reported"
-                    n_rep += 1
+                    n_ok_in_digest += 1 if o[0] in ("digest", "pbegin", "pstep") else 0
+                elif o[0] in ("digest", "pbegin", "pstep"):
+                    fate[x] = "raised-in-digest"
+                    must_report.append(x)
                 else:
                     fate[x] = "silent"
                     n_silent += 1
+            if label is not None and returned:
+                left = inflight.pop(label, [])
+                if left:
+                    return Violation("C13/conservation", f"{where}: the digest() call of thread {label} returned but items {left} it took off the "
+                                                         f"queue were never handed to a digester: neither queued, digested, reported, dropped nor expired")
+            n_inflight = sum(len(l) for l in inflight.values())
             ndig = sum(1 for f in fate.values() if f == "digested")
             s = st["stats"]
             if s["total_ingested"] != ningested:
                 return Violation("C13/conservation", f"after {where} total_ingested {s['total_ingested']} != {ningested} ingest calls")
             if s["total_digested"] != ndig:
                 return Violation("C13/conservation", f"after {where} total_digested {s['total_digested']} != {ndig} items whose digester returned")
-            if o[0] == "digest":
-                ok_now = sum(1 for x in gone if fate[x] == "digested")
-                bad_now = sum(1 for x in gone if fate[x] == "reported")
-                r = st["ret"]
-                if r["disposed"] != ok_now or r["nerr"] != bad_now or bool(r["success"]) != (bad_now == 0):
-                    return Violation("C13/conservation", f"{where} reports disposed={r['disposed']} errors={r['nerr']} but {ok_now} digesters returned and {bad_now} raised")
+            r = st["ret"]
+            if isinstance(r, dict):             # a DigestResult was returned (digest, or the last step of an overlapping call)
+                results.append((where, r["disposed"], r["err_ids"]))
+                disposed_returned += r["disposed"]
+                for x in r["err_ids"]:
+                    reported[x] = reported.get(x, 0) + 1
+                if bool(r["success"]) != (r["nerr"] == 0):
+                    return Violation("C13/conservation", f"{where} reports success={r['success']} with {r['nerr']} errors")
                 for v in r["recycled_refs"]:
                     if types.get(v) == TOXIC:
                         return Violation("C13/toxic-recycled", f"{where}: DigestResult.recycled refers to sensitive item {v}")
                 if r.get("recycled_secret"):
                     return Violation("C13/toxic-recycled", f"{where}: DigestResult.recycled holds the content of a sensitive item")
+            if o[0] == "digest":
+                ok_now = sum(1 for x in gone if fate[x] == "digested")
+                bad_now = sum(1 for x in gone if fate[x] == "raised-in-digest")
+                if r["disposed"] != ok_now or r["nerr"] != bad_now:
+                    return Violation("C13/conservation", f"{where} reports disposed={r['disposed']} errors={r['nerr']} but {ok_now} digesters returned and {bad_now} raised")
+            # every item is reported as a digestion error at most once, and only if its digester did raise in a digest() call
+            for x, k in reported.items():
+                if k > 1 or x not in must_report:
+                    return Violation("C13/conservation", f"after {where}: item {x} is listed {k} time(s) in the errors of the returned DigestResults "
+                                                         f"{results} but the digesters that raised inside digest() calls are those of items {must_report}: "
+                                                         + ("one failure is reported more than once" if x in must_report else
+                                                            "an item that was not a digestion error of any digest() call is reported as one"))
+            if not inflight:
+                # no digest() call in progress: exactly once, and every counted item is counted by exactly one result
+                missing = [x for x in must_report if reported.get(x, 0) != 1]
+                if missing:
+                    return Violation("C13/conservation", f"after {where} (no call in progress): the digesters of items {missing} raised inside digest() "
+                                                         f"calls but the returned DigestResults {results} do not list them: these items are neither queued, "
+                                                         f"digested (counted), reported as a digestion error, dropped nor expired")
+                if disposed_returned != n_ok_in_digest:
+                    return Violation("C13/conservation", f"after {where} (no call in progress): the returned DigestResults {results} count {disposed_returned} "
+                                                         f"disposed items but {n_ok_in_digest} digesters returned inside digest() calls")
             if o[0] == "auto" and st["ret"] != len(gone):
                 return Violation("C13/conservation", f"{where} returned {st['ret']} but {len(gone)} items expired")
-            if s["total_ingested"] != len(after) + s["total_digested"] + n_rep + n_silent + n_exp:
-                return Violation("C13/conservation", f"after {where}: ingested {s['total_ingested']} != queued {len(after)} + digested {s['total_digested']} "
-                                                     f"+ reported {n_rep} + dropped inside ingest {n_silent} + expired {n_exp}")
+            if s["total_ingested"] != len(after) + n_inflight + s["total_digested"] + len(must_report) + n_silent + n_exp:
+                return Violation("C13/conservation", f"after {where}: ingested {s['total_ingested']} != queued {len(after)} + taken by a digest() call in progress "
+                                                     f"{n_inflight} + digested {s['total_digested']} "
+                                                     f"+ digestion errors {len(must_report)} + dropped inside ingest {n_silent} + expired {n_exp}")
             # toxic items never recycled
             for v in st["bin_refs"]:
                 if types.get(v) == TOXIC:
@@ -923,11 +1273,27 @@ class C13(Check):
             ks.append("value-equal-items")
         if not isinstance(trace, dict):
             return ks
+        if any(is_pass(o) for o in case["ops"]):
+            ks.append("overlapping-digest-calls")
         for s in trace.get("steps", []):
             if s.get("hang"):
                 ks.append("hang")
                 continue
+            if s.get("waited") or s.get("bad"):
+                ks.append("overlap:waited-for-digester" if s.get("waited") else "overlap:not-a-call")
+                continue
             o = s["op"]
+            if is_pass(o):
+                if len(s["open"]) >= 2:
+                    ks.append("overlap:two-or-more-calls-in-progress")
+                if any(c[2] for c in s["calls"]):
+                    ks.append("overlap:digester-raised")
+                if isinstance(s["ret"], dict):
+                    ks.append("overlap:returned-with-errors" if s["ret"]["nerr"] else "overlap:returned-clean")
+            elif s["open"]:
+                ks.append("overlap:" + ("ingest" if is_ingest(o) else o[0]) + "-during-a-digest-call")
+                if is_ingest(o) and len(s["before"]) + 1 - len(s["after"]) > 0:
+                    ks.append("overlap:ingest-digests-during-a-digest-call")
             if is_ingest(o):
                 gone = len(s["before"]) + 1 - len(s["after"])
                 if len(s["before"]) >= cfg["max"]:
